@@ -535,11 +535,19 @@ class AbstractObject():
     # degreeToKey
 
 
+def _not(x):
+    return x.not_() if isinstance(x, AbstractObject) else operator.not_(x)
+
+
 class AbstractSequence(AbstractObject):
 
     ### AbstractObject interface ###
 
     def _compose_unop(self, selector):
+        if selector is operator.not_:
+            # `not x` can't be overloaded, AbstractObject
+            # elements (e.g. UGens) compose the operation.
+            selector = _not
         return utl.list_unop(selector, self, type(self))
 
     def _compose_binop(self, selector, other):
